@@ -27,4 +27,8 @@ def profile_getcid(self: 'Profile', nick: 'str|int', loc: 'int|str') -> 'any':
     ensures(and_(1 <= any_int_value(result), any_int_value(result) <= self.nCand), name='candidate id within 1..nCand')
     ensures(implies(and_(is_digit_string(nick), int_accepts(nick)), any_int_value(result) == int_value_of(nick)),
             name='a numeral denotes itself (numbers take precedence over nicknames)')
+    if kind_of(nick) == 'str':
+        ensures(implies(and_(not_(is_digit_string(nick)), dhas(self._nickCid, nick)),
+                        any_eq(result, dval(self._nickCid, nick))),
+                name='anything that is not a plain decimal numeral is a nickname: looked up in the table, never re-read as a number')
     modifies()
